@@ -1,6 +1,7 @@
 //! Verification harness for libpathrs: drives the real library (built from
 //! /repo's working tree with the `_verif_hooks` feature) on generated cases and
 //! writes transcripts for the Lean model driver.
+mod attack;
 mod capi;
 mod c15;
 mod capisuite;
@@ -304,6 +305,14 @@ fn main() {
         no_openat2,
     };
     PSL_AT_START.store(protected_symlinks(), Ordering::SeqCst);
+    if cmd == "fault-init" {
+        // no warm-up: the subject is the first use of the library in a fresh process
+        attack::suite_fault_init(&work, &mut ctx.out, no_openat2);
+        ctx.out.flush().unwrap();
+        drop(ctx);
+        let _ = fs::remove_dir_all(&work);
+        return;
+    }
     warm_up(&work);
     match cmd.as_str() {
         "probe" => probe(&mut ctx),
@@ -352,6 +361,14 @@ fn main() {
             let e2 = unsafe { capi::pathrs_errorinfo(r) };
             println!("second={:?}", e2.is_null());
             unsafe { capi::pathrs_errorinfo_free(e) };
+        }
+        "attack" => {
+            let per: usize = arg_val(&args, "--per-case").and_then(|s| s.parse().ok()).unwrap_or(300);
+            attack::suite_attack(&mut ctx, seed, n, per)
+        }
+        "fault" => {
+            let per: usize = arg_val(&args, "--per-case").and_then(|s| s.parse().ok()).unwrap_or(300);
+            attack::suite_fault(&mut ctx, seed, n, per)
         }
         "root" => {
             let class = arg_val(&args, "--ops")
